@@ -3482,6 +3482,15 @@ static Token *global_variable(Token *tok, Type *basety, VarAttr *attr) {
     if (!ty->name)
       error_tok(ty->name_pos, "variable name omitted");
 
+    // A redeclaration with an incomplete array type keeps the bound
+    // given by an earlier declaration (`int a[4]; extern int a[];`).
+    VarScope *prev = find_var(ty->name);
+    if (prev && prev->var && !prev->var->is_local && ty->kind == TY_ARRAY &&
+        ty->size < 0 && prev->var->ty->kind == TY_ARRAY && prev->var->ty->size >= 0) {
+      ty->array_len = prev->var->ty->array_len;
+      ty->size = prev->var->ty->size;
+    }
+
     Obj *var = new_gvar(get_ident(ty->name), ty);
     var->is_definition = !attr->is_extern;
     var->is_static = attr->is_static;
